@@ -564,8 +564,12 @@ static void laws(const expression_t& e)
                     std::sort(av.begin(), av.end(), [](const symbol_t& a, const symbol_t& b) { return a.get_name() < b.get_name(); });
                     for (auto& s : av) {
                         printf("clone_rename_self %s %d\n", s.get_name().c_str(), e.clone_deeper(s, s).equal(e));
+                        // every overload returns a deep copy: no node of the result is a node of the original, whatever the renaming
+                        auto sharing = [&](const expression_t& c) { std::vector<expression_t> m; W::nodes(c, m); int n = 0; for (auto& a : n1) for (auto& b : m) if (a == b) ++n; return n; };
+                        printf("clone_rename_shared %s %d\n", s.get_name().c_str(), sharing(e.clone_deeper(s, s)));
                         const symbol_t& t = av[(&s - &av[0] + 1) % av.size()];
                         printf("clone_rename_subst %s %s %d\n", s.get_name().c_str(), t.get_name().c_str(), e.clone_deeper(s, t).equal(e.subst(s, expression_t::create_identifier(t))));
+                        printf("clone_rename_shared %s->%s %d\n", s.get_name().c_str(), t.get_name().c_str(), sharing(e.clone_deeper(s, t)));
                     }
                     if (scopes.doc) {
                         frame_t g = scopes.doc->get_globals().frame;
@@ -574,6 +578,9 @@ static void laws(const expression_t& e)
                         if (resolvable && !av.empty()) {
                             printf("clone_frame %d\n", e.clone_deeper(g).equal(e));
                             printf("clone_second_frame %d\n", e.clone_deeper(frame_t::create(), g).equal(e));
+                            { std::vector<expression_t> m1, m2; W::nodes(e.clone_deeper(g), m1); W::nodes(e.clone_deeper(frame_t::create(), g), m2); int n = 0;
+                              for (auto& a : n1) { for (auto& b : m1) if (a == b) ++n; for (auto& b : m2) if (a == b) ++n; }
+                              printf("clone_frame_shared %d\n", n); }
                         }
                     }
                 
